@@ -793,6 +793,11 @@ Fixpoint copy_like_view (rows : list cells) (k : nat) (sel : list nat) : res (li
       else do r' <- copy_like_vec (nth k rows []) (nth j rows []); copy_like_view (upd rows k r') (S k) sel'
   end.
 
+(* sparse_vector(x) / sparse_array(A) / sparse(x [, copy=anything]) return the sparse object itself;
+   sparse_vector(x, copy=True) / sparse_array(A, copy=True) / SparseVector(sv) / SparseLogicalVector(sl) return an
+   independent copy; SparseVector(logical) and SparseLogicalVector(float vector) convert the dtype *)
+Inductive conv := CIdent | CCopy | CFloat | CBool.
+
 Inductive op :=
 | OBin (o : bop) (i : nat) (a : arg)        (* store[i] o a : a new object or a value *)
 | OIBin (o : bop) (i : nat) (a : arg)       (* store[i] o= a *)
@@ -804,7 +809,8 @@ Inductive op :=
 | ORed (r : red) (i : nat) (axis : option nat) (keep : bool)
 | OCopyLike (i : nat) (src : csrc)            (* store[i].copy_like(source) *)
 | OToFlat (i : nat) (buf : option (list Q))   (* store[i].to_flat_array(buffer) : the buffer content must not matter *)
-| OFromFlat (i : nat) (l : list Q).           (* store[i].from_flat_array(ndarray) *)
+| OFromFlat (i : nat) (l : list Q)            (* store[i].from_flat_array(ndarray) *)
+| OConv (c : conv) (i : nat).                 (* conversion helpers and copy constructors applied to store[i] *)
 
 Inductive outcome :=
 | RErr (e : err)
@@ -1348,6 +1354,23 @@ Definition step_res (lg : bool) (s : store) (o : op) : res (store * outcome) :=
           then Ok (set_obj s i (OA (map of_dense (chunks (vsize rows) (length rows) l)) ro), RUnit)
           else unsupported
       | _ => unsupported
+      end
+  | OConv c i =>
+      do x <- getobj s i;
+      match c with
+      | CIdent => Ok (s, RSelf)
+      | CCopy => let r := match x with OV c0 _ => OV c0 false | OA rows _ => OA rows false | _ => x end in
+                 Ok (s ++ [r], RNew r)
+      | CFloat => match x with
+                  | OV c0 _ => let r := OV c0 false in Ok (s ++ [r], RNew r)
+                  | OL b => let r := OV (cells_of_bits b) false in Ok (s ++ [r], RNew r)
+                  | _ => unsupported
+                  end
+      | CBool => match x with
+                 | OV c0 _ => let r := OL (bits_of_cells c0) in Ok (s ++ [r], RNew r)
+                 | OL b => let r := OL b in Ok (s ++ [r], RNew r)
+                 | _ => unsupported
+                 end
       end
   | ORed r i axis keep =>
       do x <- getobj s i;
